@@ -203,8 +203,11 @@ class Case:
                                 res.add((tn, c.name.name))
                                 for sub in c.commands:
                                     if isinstance(sub, qlast.SetField):
+                                        nm = sub.name
+                                        if nm == 'owned' and str(getattr(sub.value, 'value', '')).lower() == 'false':
+                                            nm = 'owned:drop'
                                         self._resets.setdefault((tn, c.name.name), set()).add(
-                                            (sub.name, sub.value is None))
+                                            (nm, sub.value is None))
             except Exception:
                 pass
             self._ast = res
@@ -804,6 +807,53 @@ def c_alter_before_drop(cs: Case):
     return {'ancestor-alter-propagates-before-drop-extending': out} if out else {}
 
 
+def c_drop_owned(cs: Case):
+    """drop-owned-not-propagated-to-descendants: the script says `ALTER TYPE B { ALTER PROPERTY|LINK n { DROP OWNED } }`
+    (B stops overloading n); B.n itself is re-inherited, but the pointers that inherit from B.n keep the OLD values:
+    every differing field of such a descendant has, in the result, exactly the old schema's value."""
+    out = set()
+    cs.script_alters()
+    dropped = {k for k, ops in cs._resets.items() if ('owned:drop', False) in ops}
+    if not dropped:
+        return {}
+    for key, f in cs.sdiff.items():
+        if key.split(' ')[0] not in ('Property', 'Link') or not isinstance(f, set) or key not in cs.ob or key not in cs.da:
+            continue
+        p = cs.ob[key]
+        via = False
+        for anc in p.get_ancestors(cs.b).objects(cs.b):
+            src = anc.get_source(cs.b)
+            if src is not None and (str(src.get_name(cs.b)), str(anc.get_shortname(cs.b).name)) in dropped:
+                via = True
+        if via and all(_val(cs.dr[key].get(x)) == _val(cs.da[key].get(x)) for x in f):
+            out.add(key)
+    return {'drop-owned-not-propagated-to-descendants': out} if out else {}
+
+
+def c_readonly_unpin(cs: Case):
+    """readonly-unpin-not-emitted: an overloaded pointer stated `readonly := true` locally in the old schema with the
+    value it inherits anyway; the target leaves it to inheritance (`readonly` in inherited_fields); the script contains
+    no RESET of readonly for that pointer; only inherited_fields differs, by exactly `readonly`."""
+    out = set()
+    cs.script_alters()
+    for key, f in cs.sdiff.items():
+        if f != {'inherited_fields'} or key.split(' ')[0] not in ('Property', 'Link') or key not in cs.ob or key not in cs.da:
+            continue
+        ia = set(_names(cs.da, key, 'inherited_fields') or [])
+        ib = set(_names(cs.db, key, 'inherited_fields') or [])
+        ir = set(_names(cs.dr, key, 'inherited_fields') or [])
+        if ib - ir != {'readonly'} or ir - ib or 'readonly' in ia:
+            continue
+        p = cs.ob[key]
+        D = p.get_source(cs.b)
+        ops = cs._resets.get((str(D.get_name(cs.b)), str(p.get_shortname(cs.b).name)), set()) if D is not None else set()
+        if any(n == 'readonly' for n, _ in ops):
+            continue
+        if _val(cs.da[key].get('readonly')) is True and _val(cs.db[key].get('readonly')) is True:
+            out.add(key)
+    return {'readonly-unpin-not-emitted': out} if out else {}
+
+
 def c_orphan_collection(cs: Case):
     """orphan-collection-type-left-behind: the result contains a tuple / array type that the target does not contain,
     it already existed in the old schema (it was the type of a pointer / parameter that the step changed or dropped)
@@ -827,7 +877,7 @@ def c_orphan_collection(cs: Case):
 #: most specific first: a differing object is attributed to the FIRST predicate that explains it
 CLASSIFIERS = (c_bases, c_orphan_collection, c_drop_before_rename, c_annotation_add_base, c_finalexpr, c_errmessage, c_alias_scalar,
                c_constraint_base, c_computed_cardinality, c_link_alias_stale, c_owned, c_abstract_base_kept,
-               c_abstract_base_lost, c_reset_reinherits, c_alter_before_drop,
+               c_abstract_base_lost, c_drop_owned, c_readonly_unpin, c_reset_reinherits, c_alter_before_drop,
                c_default_removal, c_computed_status, c_alias_over_alias, c_alias_view_stale, c_inherited_fields)
 
 
